@@ -60,6 +60,9 @@ T __CPROVER_uninterpreted_div(T, T);
 #define BS_DIV(a, b) ((a) / (b))
 #endif
 
+/* std::numeric_limits<T>::epsilon(): an arbitrary positive value (assumed > 0 by the harness) */
+T BS_EPSILON;
+
 /* "every vector has at most BS_CAP elements": the max_size() stand-in */
 #define BS_CAPACITY(c) __CPROVER_assume(c)
 
